@@ -19,6 +19,9 @@ def run(chk):
     from vlib import lean as _lr
     _lr.check_theorems(chk, "Poupool.Properties.Reader", ["Poupool.ReaderProps." + t for t in ("window_spec", "window_bounded", "missing_reading_is_local", "fresh_reading_is_seen", "mean_within_bounds", "mean_none_iff_no_valid_reading")])
     reader_common.correspondence(chk)
+    # the stir runs the counter-current pump through SwimPumpDevice: on() must energise the relay under every DAC fault pattern
+    from checks import c18 as _c18
+    _c18.swim_device_correspondence(chk)
 
 
 def search(chk):
